@@ -438,6 +438,7 @@ def build():
     U = Unit('tokenizer')
     # applied only where the text occurs (std items Verus has no model of)
     U.global_rewrites.append(('char::REPLACEMENT_CHARACTER', "'\\u{FFFD}'", 'R6: std constant char::REPLACEMENT_CHARACTER = U+FFFD'))
+    U.global_rewrites.append(('working.extend_from_slice(c.encode_utf8(&mut buf).as_bytes());', 's_push_utf8(&mut working, c);', 'R2m: encode_utf8 + extend_from_slice -> trampoline (assumed: appends the UTF-8 encoding)'))
     U.global_rewrites.append(('fixedup_str.parse::<u64>()', 's_u64_from_str_radix(fixedup_str, 10)', 'R2m: str::parse::<u64> = from_str_radix(.., 10) -> trampoline over the uninterpreted parse_u64'))
     U.raw(C.HEADER, 'header')
     U.extract('rscel/src/compiler/source_location.rs', 'struct SourceLocation')
